@@ -36,10 +36,15 @@ static void check_alloc(int ep, size_t L) {
 /* build a valid encoding for entry point ep */
 static void make_valid(int ep, rng_t *r, hin_t *h) {
     size_t n = 1 + rng_below(r, rng_chance(r, 1, 4) ? 300 : 24);
+    bool bigdict = (ep == EP_DICT || ep == EP_DICTINTO) && rng_chance(r, 1, 150);
+    if (bigdict) n = 65537 + rng_below(r, 3000); /* 3-byte indices */
+    else if ((ep == EP_DICT || ep == EP_DICTINTO) && rng_chance(r, 1, 10)) n = 257 + rng_below(r, 600); /* 2-byte indices */
     h->vals = malloc((n + 1) * 8);
     h->nvals = n;
     int model = (int)rng_below(r, AM_NMODELS);
+    if (n > 256 && (ep == EP_DICT || ep == EP_DICTINTO)) model = AM_UNIQUE9;
     gen_array_model(r, model, h->vals, n, 64);
+    if (bigdict) STAT_INC("c14_dictionaries_over_65536_entries");
     h->b = malloc(scratch_size(n) + 70000);
     h->bits = 0;
     h->intact = true;
@@ -359,6 +364,31 @@ static void run_one_input(int ep, rng_t *r, const hin_t *h) {
         }
         if (rn[0]) g_acc[ep]++;
         else g_rej[ep]++;
+        /* the same bytes through the public bit reader + single-code decoders, continuing after an error the way a
+         * re-synchronising caller would: whatever was returned must not depend on bits beyond the declared count */
+        {
+            uint64_t seq[2][48];
+            int ns[2] = {0, 0};
+            for (int pass = 0; pass < 2; pass++) {
+                if (L && (h->bits & 7)) {
+                    uint8_t m = (uint8_t)(0xffu >> (h->bits & 7));
+                    src[L - 1] = pass ? (uint8_t)(src[L - 1] | m) : (uint8_t)(src[L - 1] & ~m);
+                }
+                varintBitReader br;
+                varintBitReaderInit(&br, src, h->bits);
+                g_ctx = ep == EP_GAMMA ? "varintEliasGammaDecode" : "varintEliasDeltaDecode";
+                int errors = 0;
+                while (ns[pass] < 48 && errors < 3) {
+                    bool more = varintBitReaderHasMore(&br, 1);
+                    uint64_t v = more ? (ep == EP_GAMMA ? varintEliasGammaDecode(&br) : varintEliasDeltaDecode(&br)) : 0;
+                    seq[pass][ns[pass]++] = more ? v : ~(uint64_t)0;
+                    if (!more) break;
+                    if (v == 0) errors++;
+                }
+            }
+            if (ns[0] != ns[1] || memcmp(seq[0], seq[1], (size_t)ns[0] * 8)) HFAIL(ep, "reader-result-depends-on-bits-beyond-declared-size", "declared %zu bits: single-code decoding after an error read beyond the declared size", h->bits);
+            STAT_INC("c14_elias_reader_histories");
+        }
         free(res[0]);
         free(res[1]);
         break;
